@@ -36,4 +36,46 @@ def runProjectT (cfg : Cfg) (fs : FS) (inputs : List Str) : Option (List Coord.F
     let r := runLoopT cfg (4 * (fs.files.length + 4)) { names := names, st := Coord.init idx, fs := fs } []
     some (idx, r.1, r.2)
 
+/-- the coordinator driven with real passes in an *arbitrary* delivery order: `choices` picks, at every step,
+    which task of the pool is run and delivered next (`runLoop` is the order "always the oldest").
+    Returns the verdict, the last state and the trace. -/
+def runSched (cfg : Cfg) : List Nat → Nat → PSt → List (Coord.Task × Coord.Res) → Verdict × PSt × List (Coord.Task × Coord.Res)
+  | _, 0, s, h => (.outOfFuel, s, h)
+  | choices, fuel + 1, s, h =>
+    match s.st.pool with
+    | [] => (if remaining s then .circular else .ok, s, h)
+    | t0 :: rest0 =>
+      let k := (choices.headD 0) % (t0 :: rest0).length
+      match (t0 :: rest0).getD k t0 with
+      | .pp f first =>
+        let src := s.names.getD f []
+        let (oc, fs') := runPass cfg s.fs src first
+        let st := { s.st with pool := s.st.pool.erase (.pp f first) }
+        match oc with
+        | .err => (.err, { s with fs := fs' }, h)
+        | .ok =>
+          (match Coord.handle st (.ok f) with
+           | .cont st' => runSched cfg choices.tail fuel { s with st := st', fs := fs' } (h ++ [(.pp f first, .ok f)])
+           | .fail => (.err, { s with fs := fs' }, h)
+           | .panic => (.panic, { s with fs := fs' }, h))
+        | .hasDeps deps =>
+          let (names', idx) := indexAll s.names (deps.map (fun d => (splitOn '/' d)))
+          (match Coord.handle st (.hasDeps f idx) with
+           | .cont st' => runSched cfg choices.tail fuel { names := names', st := st', fs := fs' } (h ++ [(.pp f first, .hasDeps f idx)])
+           | .fail => (.err, { s with fs := fs' }, h)
+           | .panic => (.panic, { s with fs := fs' }, h))
+
+
+/-- `Txtpp::run` with an arbitrary delivery order -/
+def runProjectSched (cfg : Cfg) (choices : List Nat) (fs : FS) (inputs : List Str) :
+    Option (Verdict × List Coord.File × PSt × List (Coord.Task × Coord.Res)) :=
+  match resolveInputs cfg fs inputs with
+  | none => none
+  | some (files, dirs) =>
+    let scanned := scanAll fs cfg.recursive (fs.dirs.length + dirs.length + 2) dirs []
+    let (names, idx) := indexAll [] (files ++ scanned)
+    let r := runSched cfg choices (4 * (fs.files.length + 4)) { names := names, st := Coord.init idx, fs := fs } []
+    some (r.1, idx, r.2.1, r.2.2)
+
+
 end Txt
